@@ -111,8 +111,9 @@ def fixTail (r : Row) (st : Style) : Row :=
     character, insert the text after it, cut the row back to its width -/
 def Row.putKeep (r : Row) (x : Nat) (text : Bytes) (w : Nat) (st : Style) : Row :=
   let W := r.length
+  let e := headOf r x + widthAt r (headOf r x)     -- first column after the kept character
   let r1 := if contAt r (x + w) then blankCharAt r (x + w) st else r
-  let r2 := r1.take (x + 1) ++ charCells text w st ++ r1.drop (x + w)
+  let r2 := r1.take e ++ charCells text w st ++ r1.drop (x + w)
   fixTail (r2.take W) st
 
 /-! ### screens -/
@@ -140,19 +141,23 @@ def Scr.lineUp (s : Scr) : Scr :=
   if s.cy = s.top then s.scroll s.top s.bot 1
   else if 0 < s.cy then { s with cy := s.cy - 1 } else s
 
-/-- one printable character of nominal width `w0` (C03) -/
-def Scr.put (pol : WidePolicy) (s : Scr) (text : Bytes) (w0 : Nat) : Scr :=
-  let w := min (max w0 1) s.w
+/-- one printable character of nominal width `w0` (C03). A character wider than the whole
+    screen is replaced by U+FFFD. Under the `keep` policy a write on the second cell of a wide
+    character is inserted after it and the cursor ends after the inserted text. -/
+def Scr.put (pol : WidePolicy) (s : Scr) (text0 : Bytes) (w0 : Nat) : Scr :=
+  let tooWide := max w0 1 > s.w
+  let text := if tooWide then replacementChar else text0
+  let w := if tooWide then 1 else max w0 1
   let s := if s.cx + w > s.w then
              (if s.wrap then ({ s with cx := 0 } : Scr).lineDown else { s with cx := s.w - w })
            else s
   let r := s.row s.cy
-  let r' := if contAt r s.cx ∧ pol = .keep then r.putKeep s.cx text w s.sty
-            else r.put s.cx text w s.sty
+  let keep := contAt r s.cx && pol == .keep
+  let r' := if keep then r.putKeep s.cx text w s.sty else r.put s.cx text w s.sty
   let s := s.setRow s.cy r'
-  let x := s.cx + w
+  let x := s.cx + w + (if keep then headOf r s.cx + widthAt r (headOf r s.cx) - s.cx else 0)
   if x < s.w then { s with cx := x }
-  else if s.wrap then ({ s with cx := 0 } : Scr).lineDown
+  else if s.wrap then ({ s with cx := x - s.w } : Scr).lineDown
   else { s with cx := s.w - 1 }
 
 /-- grapheme mode: append `text` to the character in the cell left of the cursor -/
